@@ -55,7 +55,11 @@ func RequestDownloadEnc(cl *refclient.Client, name []byte, path [][]byte, offset
 	fs := []rc.Field{rc.F(201, name)}
 	fs = append(fs, pathField(202, path)...)
 	if offset >= 0 {
-		fs = append(fs, rc.F(203, rc.ResumeData(rc.DataFork(offset), rc.RsrcFork(0))))
+		if offset%2 == 1 {
+			fs = append(fs, rc.F(203, rc.ResumeData(rc.DataFork(offset)))) // a client that lists the data fork only
+		} else {
+			fs = append(fs, rc.F(203, rc.ResumeData(rc.DataFork(offset), rc.RsrcFork(0))))
+		}
 	}
 	if preview {
 		if wide {
@@ -217,6 +221,9 @@ func FolderDownload(srv *fixture.Server, addr string, ref []byte, maxItems int, 
 			continue
 		case 2:
 			rdata := rc.ResumeData(rc.DataFork(offset), rc.RsrcFork(0))
+			if offset%2 == 1 {
+				rdata = rc.ResumeData(rc.DataFork(offset)) // a client that lists the data fork only
+			}
 			t.Conn.Send(append(append([]byte{0, 2}, rc.U16(len(rdata))...), rdata...))
 		default:
 			t.Conn.Send([]byte{0, 1})
